@@ -91,6 +91,9 @@ def class_source(prog, ci, S, direct=False):
     if c.get("lim"):
         a = f"PosI{S}" if direct else repr(f"PosI{S}")
         L.append(f"    lim: {a} = Field(lt=10, default=1)")
+        if c.get("lim2"):
+            # the same name once more, with other constraints
+            L.append(f"    lim2: {a} = Field(lt=1000, default=2)")
     if c.get("pprop") is not None:
         # a property whose setter takes a plain int and whose getter returns (a mapping for) another class
         q = f"C{c['pprop']}{S}" if direct else repr(f"C{c['pprop']}{S}")
@@ -133,7 +136,17 @@ def gen_source(prog, S, direct=False):
 
 def sub_source(prog, S):
     c = prog["sub"]["of"]
-    return f"class D{c}{S}(C{c}{S}):\n    extra: int = 0\n"
+    src = f"class D{c}{S}(C{c}{S}):\n    extra: int = 0\n"
+    if prog["sub"].get("deep"):
+        # a third level whose parent declares nothing that is pending itself
+        src += f"class E{c}{S}(D{c}{S}):\n    more: int = 0\n"
+    return src
+
+
+def fnr_source(prog, S, direct=False):
+    c = prog["fnr"]["to"]
+    q = f"C{c}{S}" if direct else repr(f"C{c}{S}")
+    return f"@utype.parse(ignore_params=True)\ndef fnr{S}(k=7) -> {q}:\n    return {{'v': k}}\n"
 
 
 def local_source(S, cont2, collide=False):
@@ -212,6 +225,11 @@ def model_class(prog, ci, data, depth=0):
         if not (0 < lv < 10):
             raise Reject()
         out.append(["lim", lv])
+        if c.get("lim2"):
+            lv2 = _to_int(data.get("lim2", 2))
+            if not (0 < lv2 < 1000):
+                raise Reject()
+            out.append(["lim2", lv2])
     if c.get("pprop") is not None:
         pv = _to_int(data.get("prop", 0))
         out.append(["prop", model_class(prog, c["pprop"], {"v": pv}, depth + 1)])
@@ -236,7 +254,11 @@ def model_outcome(prog, use):
             return ["ok", kernel.canon_mapping_unordered(["list", [["list", ys], ret]])]
         if use["what"] == "sub":
             m = model_class(prog, use["cls"], use["data"])
+            if use.get("deep"):
+                return ["ok", kernel.canon_mapping_unordered([m[0].replace(":C", ":E"), m[1] + [["extra", 0], ["more", 0]]])]
             return ["ok", kernel.canon_mapping_unordered([m[0].replace(":C", ":D"), m[1] + [["extra", 0]]])]
+        if use["what"] == "fnr":
+            return ["ok", kernel.canon_mapping_unordered(model_class(prog, prog["fnr"]["to"], {"v": 7}))]
         if use["what"] == "fn":
             a = model_class(prog, prog["func"]["arg"], use["data"])
             av = dict((k, v) for k, v in a[1])["v"]
@@ -287,6 +309,8 @@ def gen_input(rng, prog, ci, depth, bad):
                 d[key] = x
     if c.get("lim") and rng.random() < 0.5:
         d["lim"] = rng.choice([2, "3", 9, 10, 0])
+    if c.get("lim2") and rng.random() < 0.6:
+        d["lim2"] = rng.choice([5, 500, "50", 1000, 0])
     if c.get("pprop") is not None and rng.random() < 0.6:
         d["prop"] = rng.choice([1, "2", 7])
     return d
@@ -373,7 +397,9 @@ def generate(rng, tier):
     if rng.random() < 0.35 and no_req:
         prog["genfn"] = {"to": rng.choice(no_req), "form": rng.choice(["iter", "gen"])}
     if rng.random() < 0.3:
-        prog["sub"] = {"of": rng.randrange(n)}
+        prog["sub"] = {"of": rng.randrange(n), "deep": rng.random() < 0.5}
+    if rng.random() < 0.25 and no_req:
+        prog["fnr"] = {"to": rng.choice(no_req)}
     # break required cycles (a required cycle has no finite valid input; keep at most opt/list/... on back edges)
     order = list(range(n))
     rng.shuffle(order)   # definition order
@@ -392,6 +418,11 @@ def generate(rng, tier):
     no_req = [ci for ci in range(n) if not any(r["cont"] == "req" for r in classes[ci]["refs"])]
     if "genfn" in prog and prog["genfn"]["to"] not in no_req:
         prog.pop("genfn")
+    if "fnr" in prog and prog["fnr"]["to"] not in no_req:
+        prog.pop("fnr")
+    for c_ in classes:
+        if c_.get("lim") and rng.random() < 0.6:
+            c_["lim2"] = True
     for ci in range(n):
         if classes[ci]["base"] == "schema" and no_req and rng.random() < 0.2 and not future:
             classes[ci]["pprop"] = rng.choice(no_req)
@@ -405,6 +436,8 @@ def generate(rng, tier):
         ev.insert(rng.randrange(len(ev) + 1), {"ev": "define_fn2"})
     if "genfn" in prog:
         ev.insert(rng.randrange(len(ev) + 1), {"ev": "define_gen"})
+    if "fnr" in prog:
+        ev.insert(rng.randrange(len(ev) + 1), {"ev": "define_fnr"})
     if "sub" in prog:
         # a subclass can only be declared after its base
         at = [i for i, e in enumerate(ev) if e["ev"] == "define" and e["cls"] == prog["sub"]["of"]][0]
@@ -430,10 +463,13 @@ def generate(rng, tier):
             uses.append({"ev": "use", "what": "fn2", "data": d})
     if "genfn" in prog:
         uses.append({"ev": "use", "what": "gen", "n": rng.choice([1, 2, 3]), "data": {}})
+    if "fnr" in prog:
+        uses.append({"ev": "use", "what": "fnr", "data": {}})
     if "sub" in prog:
         for _ in range(rng.choice([1, 2])):
             bad = [1 if rng.random() < 0.25 else 0]
-            uses.append({"ev": "use", "what": "sub", "cls": prog["sub"]["of"], "data": gen_input(rng, prog, prog["sub"]["of"], 0, bad)})
+            uses.append({"ev": "use", "what": "sub", "cls": prog["sub"]["of"], "deep": bool(prog["sub"].get("deep")) and rng.random() < 0.7,
+                         "data": gen_input(rng, prog, prog["sub"]["of"], 0, bad)})
     if rng.random() < 0.3:
         uses.append({"ev": "schema", "cls": rng.randrange(n)})
     if rng.random() < 0.3:
@@ -492,7 +528,10 @@ def _special_call(mod, S, prog, u):
                     break
             return [ys, ret]
         return drive
-    cls = getattr(mod, f"D{u['cls']}{S}")
+    if u["what"] == "fnr":
+        f = getattr(mod, "fnr" + S)
+        return lambda: f()
+    cls = getattr(mod, f"{'E' if u.get('deep') else 'D'}{u['cls']}{S}")
     return lambda: cls.__from__(copy.deepcopy(u["data"]))
 
 
@@ -524,10 +563,12 @@ def run_direct_twin(prog, uses):
         src.append(gen_source(prog, S, direct=True))
     if "sub" in prog:
         src.append(sub_source(prog, S))
+    if "fnr" in prog:
+        src.append(fnr_source(prog, S, direct=True))
     mod = kernel.make_module("verif_c17_direct_" + S.strip("_"), "\n".join(src))
     out = []
     for u in uses:
-        if u["what"] in ("fn2", "gen", "sub"):
+        if u["what"] in ("fn2", "gen", "sub", "fnr"):
             out.append(_outcome(_special_call(mod, S, prog, u)))
         elif u["what"] == "fn":
             f = getattr(mod, "fn" + S)
@@ -638,8 +679,8 @@ def execute(plan):
             if prog["func"]["arg"] not in defined or prog["func"]["ret"] not in defined:
                 pending_seen = True
             res.ev(n, "define_fn")
-        elif k in ("define_fn2", "define_gen", "define_sub"):
-            src = {"define_fn2": func2_source, "define_gen": gen_source}.get(k)
+        elif k in ("define_fn2", "define_gen", "define_sub", "define_fnr"):
+            src = {"define_fn2": func2_source, "define_gen": gen_source, "define_fnr": fnr_source}.get(k)
             src = src(prog, S) if src else sub_source(prog, S)
             if prog.get("future"):
                 exec(compile(future_hdr + src, f"<{mod.__name__}>", "exec"), mod.__dict__)
@@ -677,8 +718,8 @@ def execute(plan):
         elif k == "use":
             want = want_all[ui]
             ui += 1
-            if e["what"] in ("fn2", "gen", "sub"):
-                need_def = {"fn2": "define_fn2", "gen": "define_gen", "sub": "define_sub"}[e["what"]]
+            if e["what"] in ("fn2", "gen", "sub", "fnr"):
+                need_def = {"fn2": "define_fn2", "gen": "define_gen", "sub": "define_sub", "fnr": "define_fnr"}[e["what"]]
                 if need_def not in extra_defined:
                     res.ev(n, "use", e["what"], "skipped(undefined)")
                     continue
@@ -691,6 +732,8 @@ def execute(plan):
                         needs |= _needs(prog, prog["func2"]["p1"])
                 elif e["what"] == "gen":
                     needs = _needs(prog, prog["genfn"]["to"])
+                elif e["what"] == "fnr":
+                    needs = _needs(prog, prog["fnr"]["to"])
                 else:
                     needs = _needs(prog, e["cls"])
                 call = _special_call(mod, S, prog, e)
